@@ -32,8 +32,16 @@ type scenarioSpec struct {
 	// build a backlog; then the queue capacity is set to each of these values in turn
 	// (Queue.SetCapacity — what ApplyConfig does for oneway_queue_size), three more packs are handed
 	// after each change, and the consumer is released.  0 = unbounded.
-	Reconfig []int  `json:"reconfig,omitempty"`
-	Seed     uint64 `json:"seed"`
+	Reconfig []int `json:"reconfig,omitempty"`
+	// Stall (queue mode): the consumer is stalled while the senders hand their packs through every
+	// public entry point (Send, SendFlush(false), SendFlush(true)), then released: delivery order
+	// must be acceptance order across entry points.
+	Stall bool `json:"stall,omitempty"`
+	// TimeoutMs: the client's Timeout (dial / write deadline); IdleMs: every sender pauses that long
+	// after each send, so the healthy connection gets older than the timeout between sends.
+	TimeoutMs int    `json:"timeout_ms,omitempty"`
+	IdleMs    int    `json:"idle_ms,omitempty"`
+	Seed      uint64 `json:"seed"`
 }
 
 type observation struct {
@@ -78,7 +86,16 @@ func (sc *scen) doSend(r *vh.Rng, sender, seq, big int) *sendRec {
 	rec := &sendRec{Sender: sender, Seq: seq, Pcode: pcode, Lic: lic, Eff: eff, tp: tp}
 	rec.frame = refFrame(tp, eff)
 	rec.Len = len(rec.frame)
-	rec.Flush = sc.spec.Mode == "queue" && r.Chance(30)
+	// every public entry point for a pack, in both modes
+	switch r.Intn(3) {
+	case 0:
+		rec.Entry = "Send"
+	case 1:
+		rec.Entry = "SendFlush(false)"
+	default:
+		rec.Entry = "SendFlush(true)"
+		rec.Flush = true
+	}
 	sc.mu.Lock()
 	rec.Sid = sc.nsid
 	sc.nsid++
@@ -86,8 +103,9 @@ func (sc *scen) doSend(r *vh.Rng, sender, seq, big int) *sendRec {
 	sc.mu.Unlock()
 	var made int64
 	p := &tpack{TextPack: tp, onWrite: func() {
-		if g := sc.gate; g != nil {
-			<-g
+		// only the consumer goroutine is stalled: a pack written by its sender must not wait here
+		if sc.gate != nil && atomic.LoadInt32(&sc.gated) == 1 && inProcessGoroutine() {
+			<-sc.gate
 		}
 		atomic.StoreInt64(&made, sc.clk.tick())
 		atomic.AddInt64(&sc.nMade, 1)
@@ -99,13 +117,19 @@ func (sc *scen) doSend(r *vh.Rng, sender, seq, big int) *sendRec {
 	if r.Chance(10) {
 		opts = append(opts, wnet.WithPriority(true))
 	}
+	if r.Chance(10) {
+		opts = append(opts, wnet.WithSecureFlag(byte(r.Intn(3))))
+	}
 	var err error
 	rec.Inv = sc.clk.tick()
 	out := vh.Guard(func() {
-		if rec.Flush {
-			err = sc.c.SendFlush(p, true, opts...)
-		} else {
+		switch rec.Entry {
+		case "Send":
 			err = sc.c.Send(p, opts...)
+		case "SendFlush(false)":
+			err = sc.c.SendFlush(p, false, opts...)
+		default:
+			err = sc.c.SendFlush(p, true, opts...)
 		}
 	})
 	rec.Ret = sc.clk.tick()
@@ -181,7 +205,7 @@ func runScenario(spec scenarioSpec) *observation {
 	}
 	sc := &scen{spec: spec, clk: clk, lg: lg, srv: srv, nonce: int32(vh.NewRng(spec.Seed ^ uint64(time.Now().UnixNano())).U64())}
 	obs.Nonce = sc.nonce
-	if len(spec.Reconfig) > 0 && spec.Mode == "queue" {
+	if (len(spec.Reconfig) > 0 || spec.Stall) && spec.Mode == "queue" {
 		sc.gate = make(chan struct{})
 		sc.gated = 1
 	}
@@ -201,6 +225,9 @@ func runScenario(spec scenarioSpec) *observation {
 	}
 	// the three steps of GetOneWayTcpClient, on a private client
 	sc.c = oneway.NewForVerif(opts...)
+	if spec.TimeoutMs > 0 {
+		sc.c.Timeout = time.Duration(spec.TimeoutMs) * time.Millisecond
+	}
 	_ = sc.c.Connect()
 	done := sc.c.StartProcessForVerif()
 
@@ -229,6 +256,9 @@ func runScenario(spec scenarioSpec) *observation {
 					big = spec.Big/2 + r.Intn(spec.Big/2+1)
 				}
 				rec := sc.doSend(r, sender, seq, big)
+				if spec.IdleMs > 0 {
+					time.Sleep(time.Duration(spec.IdleMs) * time.Millisecond)
+				}
 				switch r.Intn(8) {
 				case 0:
 					runtime.Gosched()
